@@ -176,7 +176,8 @@ CLAIMS = {
         note='The family specification Model/TechlibSpec.v is trusted. Sequential, tristate, clock-gating, isolation, decoder, filler and tie cells get the pin theorems only.'),
     'C10': dict(
         technique='Coq proofs over the circuit-edit model: exhaustive resolve theorems for all cells of the five libraries; view of every reachable circuit is a well-formed netlist; copy/pickle preserve the pin-equivalent view, names and every solution; fork elimination preserves the function (id-based semantics, both directions) and the interface set; machine-checked witness for the state-order defect; view / s_names correspondence on edit histories; differential truth tables; all library cell definitions',
-        text='Proof (copy, pickle, fork elimination full; library clause full by exhaustive evaluation; substitute on arbitrary implementations: graph invariant proved under C09, function by differential tests). '
+        text='Proof (copy, pickle, fork elimination, substitute on arbitrary implementations full; library clause full by exhaustive evaluation). '
+             'SUBSTITUTE, ANY IMPLEMENTATION (round 3, Properties/C10.v section 6): C10_substitute_function_full -- for every successful substitute call on a consistent host and a consistent implementation of the documented shape (subst_shape_b, pure_ports_b: every port has one pin), ANY subset of connected instance pins, clean-up included, in every value domain where BUF1 copies: the result is consistent, io and port names / order are unchanged, every node is a host node or the renamed copy of an implementation node, and the solutions of the result are exactly the host valuations in which the instance is read as the implementation function of its pins (unconnected input reads zero) -- both directions, agreeing on every surviving host line; the only exclusion is d22_free_b (known finding D22, refuted companion C10_substitute_d22_refuted); remove_dangling_nodes and the clean-up loop preserve the function with no assumption (C10_remove_dangling_function, C10_cleanup_function); D21 / D29 / pure-ports necessity are machine-checked witnesses; the split model (substitute = substitute_pre ; cleanup), all hypothesis checkers and the structural description are evaluated on every generated substitute case against the real Circuit. '
              'BRIDGE: for every circuit reachable by an edit history the netlist view (what the simulators read) is a well-formed netlist (C10_view_wf, C10_history_view_wf), so the C01/C07/C17 theorems apply to it. '
              'COPY / PICKLE: the result has the same node count and kinds, the same line table and io list, the same connected pins at every position (exact equality can fail only by a trailing None: C10_copy_view_not_equal), '
              'the same names position by position and the same s_nodes names; hence for ANY value domain the gate-by-gate solutions coincide (C10_copy_solution, C10_pickle_solution). '
@@ -231,7 +232,7 @@ CLAIMS = {
     'C11': dict(
         technique='Coq proofs over a hand transcription of the elaboration helpers of verilog.py and of the bench elaborator (exact correspondence on generated '
                   'tokens / modules / bench files) + differential oracle with generator-owned netlists rendered as Verilog and bench text',
-        text='Proof (bench format full from TEXT; Verilog: everything from the parse tree on is modelled and proved, the Verilog grammar itself is tied by correspondence). VERILOG MODULE: Model/VerilogModule.v transcribes passes 0, 1, 1.5 (assign retry loop) and 2 (constants, undriven signals, one-bit buses, branch forks) and the output loop of VerilogTransformer.module on top of the circuit-edit model; proved for EVERY accepted module: the result is a consistent circuit (C11_module_consistent, io live under checkable port conditions), ports appear in port-list order with bus bits in declared range order (C11_module_ports), every named pin connection reaches exactly the cell pin the library pin table names and every line at an instance cell comes from such a pin (C11_module_pin_in/_out/_pins_only), every assign bit pair is wired in either statement order or left unresolved exactly when neither side is driven (C11_module_assign), output ports read the fork of their name or of their bit 0 (C11_module_outputs), and branchforks=True equals branchforks=False up to splitting each reader line by one fork (C11_module_branchforks[_sets]) under a name side condition whose necessity is a machine-checked witness (known finding D33); witnesses for the repaired output-loop defect (D32). Compared with the real parser by intercepting what `module` receives on generated, probe and wild modules for all five libraries and both settings (nodes, lines, pins, io incl. holes, raises). BENCH TEXT: Model/BenchText.v is a lexer + parser for exactly the language lark accepts for bench.py\'s grammar (contextual keywords, comments, CR/LF corner cases determined by running lark); proved: parse(print l) = l for well-formed statements, insensitivity to ignored text, a declarative characterisation of the accepted texts (C11_bench_language), keyword assignments rejected; the wiring theorems now start from text (C11_bench_text_wiring). Compared with the real lark parser / bench.parse on generated, malformed and token-soup texts. Proved for ALL inputs over '
+        text='Proof (both formats full from TEXT). VERILOG TEXT (round 3, Model/VerilogText.v): lexer and LALR parser of verilog.GRAMMAR as lark 0.12 runs it (contextual lexer, scanner order, keyword literals as plain prefixes, the three comment forms, attributes, escaped identifiers with their terminator, sized constants), with the EXACT accepted language (C11_vtext_language: parse_verilog s = Some t iff s is a rendering of the tokens of t and t has the grammar shape; C11_vtext_lex_iff), every rendering of a well-formed tree with arbitrary ignored text parses to it (C11_vtext_any_rendering, _parse_print, _ignored_irrelevant), open comments are rejected, and the module theorems restated FROM TEXT (C11_text_module_consistent / _ports / _pin_in / _pin_out / _assign / _outputs; pins_nodup discharged from text: C11_vtext_pin_dict); lark\'s LALR accept sets, scanner order and pattern sources are pinned against the model on every run; parse_verilog is compared with lark\'s raw tree on generated / mutated / malformed / probe texts and the whole pipeline circuits_of_text with verilog.parse (every node, line, io entry). VERILOG MODULE: Model/VerilogModule.v transcribes passes 0, 1, 1.5 (assign retry loop) and 2 (constants, undriven signals, one-bit buses, branch forks) and the output loop of VerilogTransformer.module on top of the circuit-edit model; proved for EVERY accepted module: the result is a consistent circuit (C11_module_consistent, io live under checkable port conditions), ports appear in port-list order with bus bits in declared range order (C11_module_ports), every named pin connection reaches exactly the cell pin the library pin table names and every line at an instance cell comes from such a pin (C11_module_pin_in/_out/_pins_only), every assign bit pair is wired in either statement order or left unresolved exactly when neither side is driven (C11_module_assign), output ports read the fork of their name or of their bit 0 (C11_module_outputs), and branchforks=True equals branchforks=False up to splitting each reader line by one fork (C11_module_branchforks[_sets]) under a name side condition whose necessity is a machine-checked witness (known finding D33); witnesses for the repaired output-loop defect (D32). Compared with the real parser by intercepting what `module` receives on generated, probe and wild modules for all five libraries and both settings (nodes, lines, pins, io incl. holes, raises). BENCH TEXT: Model/BenchText.v is a lexer + parser for exactly the language lark accepts for bench.py\'s grammar (contextual keywords, comments, CR/LF corner cases determined by running lark); proved: parse(print l) = l for well-formed statements, insensitivity to ignored text, a declarative characterisation of the accepted texts (C11_bench_language), keyword assignments rejected; the wiring theorems now start from text (C11_bench_text_wiring). Compared with the real lark parser / bench.parse on generated, malformed and token-soup texts. Proved for ALL inputs over '
              'Model/VerilogElab.v: [l:r] expands to |l-r|+1 bit names in declared direction (also for part selects), bit names are injective; w\'bN / w\'dN / '
              'w\'hN give exactly w one-bit constants, MSB first, of value N mod 2^w; concat = flat_map; the port position table numbers the port bits 0..n-1 in '
              'port-list order with bus bits in declared range order, no position twice, and io_nodes is exactly that list with the declared directions (no '
@@ -248,7 +249,7 @@ CLAIMS = {
     'C14': dict(
         technique='Coq proofs: SDF text -> tree (lexer/parser transcription with round trip and none-lost-from-text theorems) and slot-by-slot theorems over a Gallina transcription of the SDF transformer callbacks and of DelayFile.iopaths/interconnects; '
                   'exact correspondence on generated (tree, circuit) cases incl. exceptions; generator-owned ground-truth oracle on Verilog x SDF renderings',
-        text='Proof (full from TEXT). TEXT LEVEL: Model/SdfText.v transcribes what lark 0.12 does with sdf.GRAMMAR (contextual lexer, scanner order, ignore rules, keywords as prefixes, LALR parser); proved: parse/print round trip for every well-formed tree, insensitivity to ignored text, header / CELLTYPE / TIMINGCHECK entries are skipped without effect, and every delay entry written in any DELAY of any CELL ends up in the DelayFile under its instance (C14_text_parse_cfile, _parse_print, _ignored_text_irrelevant, _skipped_items_irrelevant, _entry_kept[_any], _delayfile_of_blocks); compared with lark on generated, mutated, malformed and corner-case texts on every run; a lexer probe checks that lark builds the scanners the model transcribes; the whitespace-in-names defect (D34) was found here. From the tree that the lark grammar hands to the transformer on, everything is '
+        text='Proof (full from TEXT). TEXT LEVEL: Model/SdfText.v transcribes what lark 0.12 does with sdf.GRAMMAR (contextual lexer, scanner order, ignore rules, keywords as prefixes, LALR parser); next to names the conditions of the concrete syntax are exactly what the lexer of d9c2c16 skips (C14_text_idsep_exact, _comment_lexed_as_name, _slash_name_lost, _name_end_exact, _instance0_exact; the first version of the theorem is the special case _parse_cfile_v1; for whole files cfile_ok is sufficient, not necessary: _cfile_ok_not_necessary); proved: parse/print round trip for every well-formed tree, insensitivity to ignored text, header / CELLTYPE / TIMINGCHECK entries are skipped without effect, and every delay entry written in any DELAY of any CELL ends up in the DelayFile under its instance (C14_text_parse_cfile, _parse_print, _ignored_text_irrelevant, _skipped_items_irrelevant, _entry_kept[_any], _delayfile_of_blocks); compared with lark on generated, mutated, malformed and corner-case texts on every run; a lexer probe checks that lark builds the scanners the model transcribes; the whitespace-in-names defect (D34) was found here. From the tree that the lark grammar hands to the transformer on, everything is '
              'modelled: triple/sanitize/cell/start, DelayFile.__init__, iopaths, interconnects (string processing of escaped names, edge qualifiers and '
              'pin references included). Proved for ALL block sequences: grouping keeps every entry of every CELL block per instance in file order '
              '(repeated instances, several instance-less blocks, several DELAY sections); for ALL circuits/files: the returned array is the zero array '
